@@ -30,6 +30,13 @@ class ServiceOptions(BitsInterface):
         self.priority_level: int = priority_level
         self.reserved: bitarray = reserved[0:2]
 
+    def __eq__(self, other) -> bool:
+        # value equality: the same eight bits
+        return isinstance(other, ServiceOptions) and self.as_bits() == other.as_bits()
+
+    def __hash__(self) -> int:
+        return hash(self.as_bits().to01())
+
     def __repr__(self) -> str:
         return (
             "[SERVICE_OPTIONS: "
